@@ -48,6 +48,35 @@ offsets at which chunk headers were read: 'tail:walker-read-the-tail-header' cou
 header itself was consumed. DEX analogue ('dex:tail-map-combo'): map_list count x bytes left after the start of the
 list x size / offset of the last complete map_item, file_size following or not, checksums re-fixed.
 
+Wide seeds ('wide' shards, labels '<fmt>:wide-seed:<shape>'): the seeds above are small, so a count that a parser loops
+over never gets large. One structure at a time is made wide - 1 200 / 2 500 / 5 000 / 20 000 items, everything else
+minimal, the items really present in the bytes so that the budget (which follows the length) grows with them only
+linearly: AXML attributes of ONE element (name index valid and distinct / all equal / 0xFFFFFFFF / outside the pool,
+distinct and equal / an empty pool string / resolved through the resource map to unknown and to known ids; string
+values; namespace index outside the pool), children, text chunks, root-level siblings, namespace mappings in scope
+(distinct / one pair repeated / never closed / closed only), nesting depth (with and without a declaration per level),
+resource-map entries, pool strings, skipped chunks; ARSC entries of one type (32-bit / 16-bit / sparse offsets, string
+values, one shared key, complex entries, holes), items of one bag, configurations of one entry (densities, locales),
+255 types, global-pool and key-pool strings, a reference chain, repeated package chunks; DEX strings / types / protos /
+field ids / method ids / classes / fields and methods of one class / instructions / tries and handlers / interfaces /
+annotations / annotation elements / parameters / array elements / extra map items; APK members, META-INF signature files,
+classesN.dex members, signing-block pairs (distinct / equal ids), v2 / v3 signers, digests, signatures, attributes and
+certificates of one signer, manifests with n permissions / activities, and the wide AXML / ARSC / DEX files as STORED
+members. Built with the independent writers (axmlgen / arscgen / dexgen / zipgen / sigblock) where they can express the
+shape and byte by byte where they cannot. Each is run unmodified (smallest counts first; a shape whose time-out was
+confirmed is not run at larger counts) and under wide mutations (one field of every item / a run of ~1138 items /
+every second item rewritten with an absent, zero, out-of-pool distinct / equal, identity, reversed or huge index; the
+declared count off by one, doubled, 1137 / 1138, at the type's maximum with the bytes unchanged; a cut inside the array
+at items 1137..1139, the middle, the end; one general mutation on top). Spies in the sandbox child measure the counts
+the parsers' own loops saw: labels 'axml:wide:attrs>=1138', 'axml:wide:namespaces>=1000', 'arsc:wide:entries>=5000',
+'dex:wide:map-items>=1000', 'apk:wide:signers>=1000', ... and 'wide:main-loop-saw-the-count'; 'budget-used>=10%' /
+'>=33%' label finished cases by the share of their budget they used (the margin of the oracle, measured).
+Kept out for the margin of the oracle (see the manifest note): a whole-array fill of the *size* field of n DEX map items
+(MapItem.parse then reads the same section n times, n x m items for 12 n + m bytes: cases come within a factor 2-3 of
+their budget before the memory cap ends them with an allowed MemoryError), and more than 1 200 (thorough: 2 500) nested
+elements that each declare a namespace (AXMLPrinter hands the whole mapping in scope to every lxml element; measured
+~n^3: 5 s at 1 200 levels, 9 min at 5 000 - 41 % of the budget of that 678 KB input).
+
 Oracle: each call runs in a sandbox child process (fork) with a CPU-time budget of max(5 s, 2 ms x len(input))
 enforced with setitimer(ITIMER_PROF) (handler records the Python stack, answers and exits) and RLIMIT_CPU as a
 kernel-level backstop (a loop inside C code cannot run the Python handler), and a 2 GB address-space cap. CPU
@@ -91,7 +120,11 @@ RULE = ('case = (target in dex/axml/arsc/apk, bytes) where bytes = a small valid
         'seeds; plus tail-chunk combinations for AXML / ARSC (chunk k made the last chunk: size 0..8 / around header '
         'size x header size x chunk type x bytes left to the end of the buffer 0..header+16, enclosing sizes consistent '
         'or not; systematic on generated minimal documents, drawn on all seeds; also inside an APK) and the map_list '
-        'analogue for DEX; thorough adds atheris corpora. non-trivial = the parser got past its header checks (harness-side spy: '
+        'analogue for DEX; plus wide seeds (one structure with 1 200 / 2 500 / 5 000 / 20 000 items: attributes of one '
+        'element with valid / equal / absent / out-of-pool name indices, children, namespaces, nesting, entries / configs / '
+        'bag items / packages of a resource table, DEX id sections / classes / members / map items, zip members, signing-'
+        'block pairs / signers / digests / certificates), unmodified and under wide mutations (a field of every item, the '
+        'declared count, cuts inside the array); thorough adds atheris corpora. non-trivial = the parser got past its header checks (harness-side spy: '
         'DEX MapList reached, AXML string pool reached, ARSC second chunk header reached, APK zip directory read); '
         'distinct = (target, bytes)')
 ASSUMPTIONS = [
@@ -2114,8 +2147,11 @@ def _dex_arrays(data, n):
         cnt = _u32(data, mo)
         if cnt >= n // 2 and mo + 4 + 12 * cnt <= len(data):
             # fields: offset and type - NOT the size: n map items that all declare a large size make MapItem.parse
-            # read the same section n times (n x m work for 12 n + m bytes: quadratic in the length of the input, see the
-            # open finding 'map-list-repeated-items'); a whole-array fill of the size field would produce exactly that
+            # read the same section n times (n x m items for 12 n + m bytes). Measured on the unchanged tree: 2 500 items
+            # with sizes 2 506 .. 0 = 3.1 M StringIdItems = 23 s of a 61 s budget; 12 000 x 36 000 ends in MemoryError
+            # under the 2 GB cap after 95 s of a 289 s budget - an allowed outcome, so this is not a finding, but a
+            # whole-array fill of the size field would put cases within a factor of 2-3 of their budget: kept out for
+            # the margin of the oracle (single-item size edits are made by the general mutations)
             arr.append({'start': mo + 4, 'stride': 12, 'count': cnt, 'fields': (8, 0), 'count_at': (mo, 4), 'pool': len(data)})
     return arr
 
@@ -2170,6 +2206,8 @@ def wide_dex(n, full=True, only=None):
     if mo + 4 + 12 * cnt == len(base):
         for shape, item in (('map-items:header', struct.pack('<HHII', 0, 0, 1, 0)),
                             ('map-items:string-id', struct.pack('<HHII', 1, 0, 1, _u32(base, 0x3c)))):
+            if only is not None and shape not in only:
+                continue
             b = bytearray(base) + item * n
             struct.pack_into('<I', b, mo, cnt + n)
             struct.pack_into('<I', b, 0x20, len(b))
@@ -2203,33 +2241,40 @@ def wide_apk(n, full=True, only=None):
         add('members:dex', Z.build_apk([('classes%d.dex' % (i + 2), b'dex\n035\0', Z.STORED) for i in range(n)] +
                                        [('classes.dex', _warm_files()[0][1], Z.STORED)]))
 
+    big = full or n <= 5000          # quick tier at 20 000: three signing-block shapes only (the writers need seconds)
+
     def signed(shape, pairs):
+        if not big and shape not in ('pairs', 'signers:v2', 'digests:v2'):
+            return
+        pairs = pairs()
         data = S.sign_zip(small, pairs)
         blk = S.find_signing_block(data)
         add('sig:' + shape, data, [{'start': blk['start'] + 8, 'stride': 12, 'count': n, 'fields': (8, 0, 4), 'count_at': None,
                                     'pool': n}] if shape.startswith('pairs') else ())
     v2 = {'id': S.V2_ID, 'signers': [_wide_signer(False)]}
-    signed('pairs', [{'id': 0x10000 + i, 'value': b''} for i in range(n)] + [v2])
-    signed('pairs:equal-id', [{'id': 0x504b4453, 'value': b''} for i in range(n)] + [v2])
+    signed('pairs', lambda: [{'id': 0x10000 + i, 'value': b''} for i in range(n)] + [v2])
+    signed('pairs:equal-id', lambda: [{'id': 0x504b4453, 'value': b''} for i in range(n)] + [v2])
     for v3, pid in ((False, S.V2_ID), (True, S.V3_ID)) if full else ((False, S.V2_ID),):
         nm = 'v3' if v3 else 'v2'
-        signed('signers:' + nm, [{'id': pid, 'signers': [_wide_signer(v3) for _ in range(n)]}])
-        signed('digests:' + nm, [{'id': pid, 'signers': [_wide_signer(v3, digests=n)]}])
-        signed('signatures:' + nm, [{'id': pid, 'signers': [_wide_signer(v3, sigs=n)]}])
-        signed('attributes:' + nm, [{'id': pid, 'signers': [_wide_signer(v3, attrs=n)]}])
+        signed('signers:' + nm, lambda: [{'id': pid, 'signers': [_wide_signer(v3) for _ in range(n)]}])
+        signed('digests:' + nm, lambda: [{'id': pid, 'signers': [_wide_signer(v3, digests=n)]}])
+        signed('signatures:' + nm, lambda: [{'id': pid, 'signers': [_wide_signer(v3, sigs=n)]}])
+        signed('attributes:' + nm, lambda: [{'id': pid, 'signers': [_wide_signer(v3, attrs=n)]}])
     if n <= 2500:
         cert = S.load_fixtures()['ecp256']['cert']
-        signed('certificates:v2', [{'id': S.V2_ID, 'signers': [_wide_signer(False, certs=n, cert=cert)]}])
+        signed('certificates:v2', lambda: [{'id': S.V2_ID, 'signers': [_wide_signer(False, certs=n, cert=cert)]}])
         if full:
-            signed('certificates:v3', [{'id': S.V3_ID, 'signers': [_wide_signer(True, certs=n, cert=cert)]}])
+            signed('certificates:v3', lambda: [{'id': S.V3_ID, 'signers': [_wide_signer(True, certs=n, cert=cert)]}])
     # manifests with n permissions / n components (valid documents: the manifest queries walk them)
-    perms = [A.E('uses-permission', attrs=[A.a_str('name', 'android.permission.P%d' % i, with_resid=True)]) for i in range(n)]
-    add('manifest:permissions', Z.build_apk([(Z.MANIFEST_NAME, A.build_axml(A.manifest_root(
-        'com.example.wide', children=perms + [A.E('application')])), Z.STORED)]))
+    perms = [A.E('uses-permission', attrs=[A.a_str('name', 'android.permission.P%d' % i, with_resid=True)])
+             for i in range(n if big else 0)]
+    if big:
+        add('manifest:permissions', Z.build_apk([(Z.MANIFEST_NAME, A.build_axml(A.manifest_root(
+            'com.example.wide', children=perms + [A.E('application')])), Z.STORED)]))
     acts = [A.E('activity', attrs=[A.a_str('name', '.A%d' % i, with_resid=True)], children=[A.E('intent-filter', children=[
         A.E('action', attrs=[A.a_str('name', 'android.intent.action.MAIN', with_resid=True)]),
         A.E('category', attrs=[A.a_str('name', 'android.intent.category.LAUNCHER', with_resid=True)])])])
-        for i in range(n)]
+        for i in range(n if n <= 5000 else 0)]
     if n <= 5000:
         add('manifest:activities', Z.build_apk([(Z.MANIFEST_NAME, A.build_axml(A.manifest_root('com.example.wide', children=[
             A.E('application', children=acts)])), Z.STORED)]))
